@@ -7,11 +7,16 @@ from . import kj, presv
 from .kj import cgen, read_tree, scratch, splitlines_keep, tabnorm, tag_pairs
 
 NAMES = ["X.py", "TestX.py", "Foo.h", "IFoo.h", "Foo.hpp", "a/Foo.h", "b/Foo.h", "a/b/Foo.h", "oo.h", "F.cs", "out", "X.pyc", "h"]
-TAGS = ["IMPORTS", "INCLUDES", "PUBLIC", "X", "XY", "A_on_entry"]
+TAGS = ["IMPORTS", "INCLUDES", "PUBLIC", "X", "XY", "A_on_entry", "x", "Imports", "isReady", "IsReady"]
+# per case the tag names are drawn from one or two small FAMILIES of related names (prefixes of one another, case variants,
+# shared stems), so that "tag vanished but a related one appeared" happens often
+FAMILIES = [["X", "XY", "XYZ", "x"], ["IMPORTS", "Imports", "IMPORTS_2"], ["isReady", "IsReady", "IsReadyNow"],
+            ["A_on_entry", "A_on_exit", "AB_on_entry"], ["GuardAck", "GuardAckValid"], ["PUBLIC", "INCLUDES"]]
 STYLES = [b"// {{{USER_%s}}}\n", b"    # {{{USER_%s}}}\n", b"/* {{{USER_%s */\n", b"{{{USER_%s\n", b"\t/// {{{USER_%s}}}\n"]
 
 
-def fresh_file(rng, wf=True):
+def fresh_file(rng, wf=True, tags=None):
+    TAGS = tags or globals()["TAGS"]
     lines = []
     used = []
     for _ in range(rng.randint(0, 6)):
@@ -35,10 +40,10 @@ def fresh_file(rng, wf=True):
     return lines, used
 
 
-def old_file(rng, tags):
+def old_file(rng, tags, family=None):
     out = []
     bodies = OrderedDict()
-    pool = list(tags) + [rng.choice(TAGS)]
+    pool = list(tags) + [rng.choice(family or TAGS)] + ([rng.choice(family)] if family else [])
     rng.shuffle(pool)
     seen = []
     for t in pool:
@@ -61,12 +66,13 @@ def gen_inputs(rng):
         names.remove("out")
     fresh = OrderedDict()
     olds = {}
+    family = rng.choice(FAMILIES) + (rng.choice(FAMILIES) if rng.random() < 0.4 else [])
     for n in names:
-        lines, used = fresh_file(rng, wf=rng.random() < 0.85)
+        lines, used = fresh_file(rng, wf=rng.random() < 0.85, tags=family)
         fresh[n] = lines
         r = rng.random()
         if r < 0.7:
-            content, bodies = old_file(rng, used)
+            content, bodies = old_file(rng, used, family)
             if rng.random() < 0.08:
                 content += b"\xff\xfe bad\n"
             olds[n] = content
@@ -118,7 +124,7 @@ def execute(ctx, fresh, olds, outdir_spelling="abs"):
             except Exception as e:  # noqa
                 return {"crash": repr(e), "fresh": fresh, "olds": olds, "spelling": outdir_spelling}, True
         after = read_tree(out)
-        fail = None
+        fails = []
         if ctx.km:
             written, returned = presv.model_regen(ctx.km, spell, old, fresh)
             mt = presv.apply_model(before, written)
@@ -137,7 +143,7 @@ def execute(ctx, fresh, olds, outdir_spelling="abs"):
                     olds[n].decode("utf-8")
                 except UnicodeDecodeError:
                     if after.get(n) != olds[n]:
-                        fail = {"what": "undecodable file was rewritten", "file": n}
+                        fails.append({"what": "undecodable file was rewritten", "file": n})
                     continue
             wf_new = len(set(names_new)) == len(names_new) and all(c == o + 1 for (o, c, _n) in exp_pairs) and \
                 len([1 for l in fl if kj.PFX in l]) == 2 * len(exp_pairs)
@@ -157,13 +163,13 @@ def execute(ctx, fresh, olds, outdir_spelling="abs"):
                     if o == i and nm in old_blocks:
                         exp.extend(old_blocks[nm])
             if tabnorm(b"".join(exp)) != after.get(n):
-                fail = {"what": "file content differs from fresh + own old blocks (C01/C02/C04 oracle)", "file": n}
+                fails.append({"what": "file content differs from fresh + own old blocks (C01/C02/C04 oracle)", "file": n})
             lost = [(nm, b) for nm, b in old_blocks.items() if nm not in names_new and b]
             lname = n + ".LostCode.txt"
             if lost:
                 lc = after.get(lname)
                 if lc is None or lname not in ret:
-                    fail = {"what": "lost code not written next to its file / not reported (C03 oracle)", "file": n}
+                    fails.append({"what": "lost code not written next to its file / not reported (C03 oracle)", "file": n})
                 else:
                     ll = splitlines_keep(lc)
                     for nm, b in lost:
@@ -175,13 +181,16 @@ def execute(ctx, fresh, olds, outdir_spelling="abs"):
                             if seg == [tabnorm(x) for x in b if x != b"\n"]:
                                 ok = True
                         if not ok:
-                            fail = {"what": "lost block not found labelled in LostCode file (C03 oracle)", "file": n, "tag": nm}
+                            fails.append({"what": "lost block not found labelled in LostCode file (C03 oracle)", "file": n, "tag": nm})
             elif lname in after and lname not in before:
-                fail = {"what": "LostCode file written although nothing was lost (C03 oracle)", "file": n}
+                fails.append({"what": "LostCode file written although nothing was lost (C03 oracle)", "file": n})
         # nothing else changed
         for k in before:
             if k not in fresh and not k.endswith(".LostCode.txt") and after.get(k) != before[k]:
-                fail = {"what": "a file that is not generated was modified", "file": k}
-        if fail:
-            fail.update({"fresh": fresh, "olds": olds, "spelling": outdir_spelling, "synthetic": True})
-        return fail, bool(olds)
+                fails.append({"what": "a file that is not generated was modified", "file": k})
+        for f in fails:
+            f.update({"fresh": fresh, "olds": olds, "spelling": outdir_spelling, "synthetic": True})
+        want = getattr(ctx, "synth_filter", None)
+        if want is not None:
+            fails = [f for f in fails if want(f)]
+        return (fails[0] if fails else None), bool(olds)
